@@ -53,8 +53,12 @@ def generate(streams, tier):
         if not inter:
             inter = [[0, 0]]
     # tables: slice 0: P(X | intra parents); slice 1: P(X | intra parents at 1, inter parents at 0)
+    rz = streams.s("zeros")
+    zero_rate = rz.choice([0.0, 0.0, 0.15, 0.4])      # exact zeros / deterministic columns: left-to-right chains, impossible emissions
+    onehot_rate = rz.choice([0.0, 0.0, 0.1, 0.4])
+
     def table(v, pcards):
-        return W.gen_table(r, card[v], pcards, zero_rate=0.0, onehot_rate=0.0)
+        return W.gen_table(r, card[v], pcards, zero_rate=zero_rate, onehot_rate=onehot_rate)
 
     par0 = [[a for a, b in intra if b == v] for v in range(k)]
     par1 = [[[a, 1] for a, b in intra if b == v] + [[a, 0] for a, b in inter if b == v] for v in range(k)]
